@@ -39,7 +39,7 @@ const (
 	c31Blk             = uint32(5)
 )
 
-const c31Rule = "one height, N in {4,7,10}, C=(N-1)/3, 0..C faulty peers; histories of up to 3N+6 messages fed in generated order: proposals (2-3 proposers, one equivocating variant), honest endorse/commit messages with genuine signatures over the named proposal's (empty-)block hash and EndorsersSig copied from genuine endorsements already in the history, faulty commit/endorse messages with arbitrary claimed endorser indices (members, the proposer, itself, non-members) and signatures (garbage, empty, genuine, copied from another proposal), a Committer/Endorser field that differs from the sending peer, a signed hash that is not the named proposal's, badly signed messages (rejected at intake), duplicates; commitDone evaluated after every message; non-trivial = history in which at least one forged claim passed intake and which ends with the verifiable-signer count of some proposer within one of the quorum; distinct = different message sequence"
+const c31Rule = "one height, N in {4,7,10}, C=(N-1)/3, 0..C faulty peers (one history in four is an empty-block round: 80% of the honest endorse/commit messages are for the EMPTY block, so more than C commit-for-empty messages occur); histories of up to 3N+6 messages fed in generated order: proposals (2-3 proposers, one equivocating variant), honest endorse/commit messages with genuine signatures over the named proposal's (empty-)block hash and EndorsersSig copied from genuine endorsements already in the history, faulty commit/endorse messages with arbitrary claimed endorser indices (members, the proposer, itself, non-members) and signatures (garbage, empty, genuine, copied from another proposal), a Committer/Endorser field that differs from the sending peer, a signed hash that is not the named proposal's, badly signed messages (rejected at intake), duplicates; commitDone evaluated after every message; non-trivial = history in which at least one forged claim passed intake and which ends with the verifiable-signer count of some proposer within one of the quorum; distinct = different message sequence"
 
 type c31Prop struct {
 	proposer       uint32
@@ -600,6 +600,10 @@ func c31History(t *testing.T, n int, quick, thorough int) {
 		h.note("N=%d faulty=%v", n, fl)
 		main := e.props[rapid.SampledFrom([]int{0, 0, 0, 1}).Draw(t, "main")]
 		steps := rapid.IntRange(3, 3*n+6).Draw(t, "steps")
+		// share (in tenths) of honest endorsements / commits that are for the proposal's EMPTY block:
+		// one history in four is a round that falls back to the empty block
+		emptyBias := rapid.SampledFrom([]int{1, 1, 1, 8}).Draw(t, "emptyBias")
+		h.note("emptyBias=%d", emptyBias)
 		excludedCase, doneCase := false, false
 		pickProp := func(label string) *c31Prop {
 			if rapid.IntRange(0, 9).Draw(t, label+"Main") < 7 {
@@ -634,7 +638,7 @@ func c31History(t *testing.T, n int, quick, thorough int) {
 				if p.proposer == who {
 					continue
 				}
-				empty := rapid.IntRange(0, 9).Draw(t, "empty") == 0
+				empty := rapid.IntRange(0, 9).Draw(t, "empty") < emptyBias
 				h.hasEndorsed[who] = true
 				e.honestEndorse(h, who, p, empty)
 			case kind < 62 || len(fl) == 0: // honest commit bundling genuine endorsements seen so far
@@ -655,7 +659,7 @@ func c31History(t *testing.T, n int, quick, thorough int) {
 				if p.proposer == who {
 					continue
 				}
-				empty := rapid.IntRange(0, 9).Draw(t, "cempty") == 0
+				empty := rapid.IntRange(0, 9).Draw(t, "cempty") < emptyBias
 				hash := p.hBlock
 				if empty {
 					hash = p.hEmpty
@@ -820,6 +824,12 @@ func c31History(t *testing.T, n int, quick, thorough int) {
 			}
 		}
 		ev.Class(fmt.Sprintf("faulty:%d", len(fl)))
+		if emptyBias > 5 {
+			ev.Class("hist:empty-block-round")
+			if doneCase && !excludedCase {
+				ev.Class("hist:empty-block-round:done-with-quorum")
+			}
+		}
 		near := best >= e.q-1 && best <= e.q
 		ev.Case(h.forgedIn > 0 && near, shortDesc(strings.Join(h.log, ";")))
 	})
